@@ -18,3 +18,4 @@ INVARIANT RefuseOK
 INVARIANT KF_TracePhase
 INVARIANT ConstOK
 INVARIANT CastOK
+INVARIANT CancelOK
